@@ -497,3 +497,97 @@ func ruleBounds(r *rep.Report, p *load.Program, rl *roles.Roles) {
 		r.Assume("smallOrder / UnpackVartime are only ever given 32-byte slices: their call sites are checked by the callee-requirement rule (P-bounds) in verifyCore and the batch loops")
 	}
 }
+
+// ruleZeroScanGuard (P): a downward scan `for s[k] == 0 { k-- }` over the limbs of a scalar in the multi-scalar family
+// terminates above index 0 only when the scalar is non-zero; every such loop must be reached only through the false
+// branch of modm.IsZeroVartime on the same scalar.
+func ruleZeroScanGuard(r *rep.Report, p *load.Program, rl *roles.Roles) {
+	cfg := p.Cfg.Name
+	if rl.Msm == nil {
+		return
+	}
+	mod, _, _ := ssau.Reachable(rl.Msm)
+	n := 0
+	for _, fn := range mod {
+		if fn.Pkg != rl.Msm.Pkg || len(fn.Blocks) == 0 {
+			continue
+		}
+		for _, blk := range fn.Blocks {
+			ifi, ok := blk.Instrs[len(blk.Instrs)-1].(*ssa.If)
+			if !ok {
+				continue
+			}
+			cmp, ok := ifi.Cond.(*ssa.BinOp)
+			if !ok || cmp.Op != token.EQL {
+				continue
+			}
+			if z, ok := constIntV(cmp.Y); !ok || z != 0 {
+				continue
+			}
+			ld, ok := cmp.X.(*ssa.UnOp)
+			if !ok || ld.Op != token.MUL {
+				continue
+			}
+			ia, ok := ld.X.(*ssa.IndexAddr)
+			if !ok {
+				continue
+			}
+			ph, ok := ia.Index.(*ssa.Phi)
+			if !ok {
+				continue
+			}
+			// the index must be decremented on the loop's own back edge (true branch returns to this block)
+			back := false
+			for _, e := range ph.Edges {
+				if bo, ok := e.(*ssa.BinOp); ok && bo.Op == token.SUB && bo.X == ph && bo.Block() == blk.Succs[0] {
+					for _, s := range bo.Block().Succs {
+						if s == blk {
+							back = true
+						}
+					}
+				}
+			}
+			if !back || !strings.HasSuffix(ia.X.Type().String(), "modm.Bignum256") {
+				continue
+			}
+			n++
+			guarded := false
+			for _, g := range fn.Blocks {
+				gi, ok := g.Instrs[len(g.Instrs)-1].(*ssa.If)
+				if !ok {
+					continue
+				}
+				cond, neg := gi.Cond, false
+				if u, ok := cond.(*ssa.UnOp); ok && u.Op == token.NOT {
+					cond, neg = u.X, true
+				}
+				call, ok := cond.(*ssa.Call)
+				if !ok {
+					continue
+				}
+				cal := call.Common().StaticCallee()
+				if cal == nil || cal.Name() != "IsZeroVartime" || cal.Pkg == nil || !strings.HasSuffix(cal.Pkg.Pkg.Path(), "internal/modm") || call.Common().Args[0] != ia.X {
+					continue
+				}
+				nz := g.Succs[1]
+				if neg {
+					nz = g.Succs[0]
+				}
+				if len(nz.Preds) == 1 && nz.Dominates(blk) {
+					guarded = true
+				}
+			}
+			r.Check(guarded, "P-zero-scan", cfg, "a leading-zero-limb scan over a scalar runs only after modm.IsZeroVartime(scalar) returned false", ssau.InstrPos(p, ifi),
+				"dominated by the non-zero branch of IsZeroVartime on the same scalar", "the downward limb scan in "+fn.Name()+" is not guarded by a zero test of the scalar: an all-zero scalar indexes below limb 0 and panics")
+		}
+	}
+	r.Check(n > 0, "P-zero-scan", cfg, "the multi-scalar family's leading-zero-limb scans are enumerated", "", fmt.Sprintf("%d scan loops", n), "no leading-zero-limb scan found in the multi-scalar family (unrecognised shape)")
+}
+
+func constIntV(v ssa.Value) (int64, bool) {
+	c, ok := v.(*ssa.Const)
+	if !ok || c.Value == nil {
+		return 0, false
+	}
+	return c.Int64(), true
+}
